@@ -155,6 +155,9 @@ type vWalker struct {
 	dirOf   func(pkg, typ string) (string, bool)
 	errs    []string
 	used    map[string]int64 // pkg|expr -> value (side table)
+	// nested decoder calls inside a generated UnmarshalMsgWithState that do NOT pass the caller's
+	// depth state on (`.UnmarshalMsg(bts)` or a second argument other than `st`)
+	unthreaded []string
 }
 
 var vUnmarshalerT = reflect.TypeOf((*msgp.Unmarshaler)(nil)).Elem()
@@ -320,6 +323,35 @@ func (w *vWalker) typeOfExpr(e ast.Expr, pkg string, imports map[string]string) 
 	return nil
 }
 
+func vExprString(e ast.Expr) string {
+	var sb strings.Builder
+	var pr func(e ast.Expr)
+	pr = func(e ast.Expr) {
+		switch x := e.(type) {
+		case *ast.Ident:
+			sb.WriteString(x.Name)
+		case *ast.ParenExpr:
+			sb.WriteByte('(')
+			pr(x.X)
+			sb.WriteByte(')')
+		case *ast.StarExpr:
+			sb.WriteByte('*')
+			pr(x.X)
+		case *ast.SelectorExpr:
+			pr(x.X)
+			sb.WriteByte('.')
+			sb.WriteString(x.Sel.Name)
+		case *ast.IndexExpr:
+			pr(x.X)
+			sb.WriteString("[i]")
+		default:
+			sb.WriteByte('?')
+		}
+	}
+	pr(e)
+	return sb.String()
+}
+
 func (w *vWalker) called(owner reflect.Type) map[reflect.Type]bool {
 	if c, ok := w.calls[owner]; ok {
 		return c
@@ -393,8 +425,15 @@ func (w *vWalker) called(owner reflect.Type) map[reflect.Type]bool {
 			return true
 		}
 		sel, ok := ce.Fun.(*ast.SelectorExpr)
+		if ok && sel.Sel.Name == "UnmarshalMsg" {
+			w.unthreaded = append(w.unthreaded, fmt.Sprintf("%s: %s.UnmarshalMsg starts a fresh AllowableDepth", vShort(owner), vExprString(sel.X)))
+			return true
+		}
 		if !ok || sel.Sel.Name != "UnmarshalMsgWithState" {
 			return true
+		}
+		if id, isId := ce.Args[len(ce.Args)-1].(*ast.Ident); len(ce.Args) != 2 || !isId || id.Name != "st" {
+			w.unthreaded = append(w.unthreaded, fmt.Sprintf("%s: %s.UnmarshalMsgWithState is not given st", vShort(owner), vExprString(sel.X)))
 		}
 		t := resolve(sel.X)
 		for t != nil && t.Kind() == reflect.Ptr {
@@ -776,6 +815,16 @@ func TestVerifC40Gen(t *testing.T) {
 			sb.WriteString("; ")
 		}
 		fmt.Fprintf(&sb, "%d", n.ID)
+	}
+	sb.WriteString("].\n\n")
+	sb.WriteString("(* nested decoder calls of the generated UnmarshalMsgWithState functions that do not pass the depth\n   state `st` on (read from the msgp_gen.go files); must be empty: MsgpackSchemas.real_depth_state_threaded *)\n")
+	sb.WriteString("Definition unthreaded_calls : list string := [")
+	sort.Strings(w.unthreaded)
+	for i, u := range w.unthreaded {
+		if i > 0 {
+			sb.WriteString(";")
+		}
+		fmt.Fprintf(&sb, "\n  %q", u)
 	}
 	sb.WriteString("].\n")
 	if err := os.WriteFile(out, []byte(sb.String()), 0644); err != nil {
@@ -2226,8 +2275,185 @@ func vRunChildren(t *testing.T, pend []vPending) []string {
 	return res
 }
 
+// ------------------------------------------------------------------------------------------
+// recursion points: a called type that (transitively, through any struct / slice / map / pointer
+// level) contains itself.  For every such cycle and EVERY combination of struct-from-map /
+// struct-from-array encodings of the struct levels on the cycle, the cycle is unrolled d times around a
+// smallest valid leaf: nesting in the form the honest encoder writes and in the positional forms that
+// only the lenient decoder accepts.
+// ------------------------------------------------------------------------------------------
+
+type vStep struct {
+	kind byte // 'e' slice/array element, 'm' map value, 'f' struct field, 'r' called type, 'p' pointer
+	s    *vSch
+	f    *vField
+	key  []byte
+	n    *vNamed
+}
+
+func (st vStep) wrap(arrForm bool, in []byte) []byte {
+	switch st.kind {
+	case 'e':
+		return append([]byte{0x91}, in...)
+	case 'm':
+		return append(append([]byte{0x81}, st.key...), in...)
+	case 'f':
+		if arrForm {
+			return vStructArr(st.s, st.f, in, 0)
+		}
+		return vStructMap(st.s, st.f, in, 0)
+	}
+	return in
+}
+
+type vCycle struct {
+	name   string
+	prefix []vStep // root body .. first occurrence of the recursive type (map form)
+	turn   []vStep // body of the recursive type .. its next occurrence
+	leaf   []byte
+}
+
+// named types from which a recursive named type (one that contains itself) can be reached
+func vRecursionInfo(all []*vNamed) (canReach map[*vNamed]bool) {
+	succ := map[*vNamed]map[*vNamed]bool{}
+	var refs func(s *vSch, acc map[*vNamed]bool)
+	refs = func(s *vSch, acc map[*vNamed]bool) {
+		switch s.K {
+		case kSlice, kArray, kPtr:
+			refs(s.Elem, acc)
+		case kMap:
+			refs(s.Key, acc)
+			refs(s.Val, acc)
+		case kStruct:
+			for _, f := range s.Fld {
+				refs(f.S, acc)
+			}
+		case kRef:
+			if s.Ref.Special == "" {
+				acc[s.Ref] = true
+			}
+		}
+	}
+	for _, n := range all {
+		succ[n] = map[*vNamed]bool{}
+		if n.Special == "" {
+			refs(n.Body, succ[n])
+		}
+	}
+	reach := func(from *vNamed) map[*vNamed]bool {
+		seen := map[*vNamed]bool{}
+		var go1 func(n *vNamed)
+		go1 = func(n *vNamed) {
+			for m := range succ[n] {
+				if !seen[m] {
+					seen[m] = true
+					go1(m)
+				}
+			}
+		}
+		go1(from)
+		return seen
+	}
+	rec := map[*vNamed]bool{}
+	rs := map[*vNamed]map[*vNamed]bool{}
+	for _, n := range all {
+		rs[n] = reach(n)
+		if rs[n][n] {
+			rec[n] = true
+		}
+	}
+	canReach = map[*vNamed]bool{}
+	for _, n := range all {
+		if rec[n] {
+			canReach[n] = true
+		}
+		for m := range rs[n] {
+			if rec[m] {
+				canReach[n] = true
+			}
+		}
+	}
+	return canReach
+}
+
+func vFindCycles(s *vSch, name string, path []vStep, stack []*vNamed, stackAt []int, canReach map[*vNamed]bool, out *[]vCycle) {
+	if len(path) > 80 || len(*out) > 40 {
+		return
+	}
+	ext := func(st vStep) []vStep { return append(append([]vStep(nil), path...), st) }
+	switch s.K {
+	case kSlice:
+		if s.Bound != 0 {
+			vFindCycles(s.Elem, name+"[]", ext(vStep{kind: 'e'}), stack, stackAt, canReach, out)
+		}
+	case kArray:
+		if s.N > 0 {
+			vFindCycles(s.Elem, name+"[0]", ext(vStep{kind: 'e'}), stack, stackAt, canReach, out)
+		}
+	case kMap:
+		if k, ok := vKeyEnc(s.Key, 0); ok && s.Bound != 0 {
+			vFindCycles(s.Val, name+"{}", ext(vStep{kind: 'm', key: k}), stack, stackAt, canReach, out)
+		}
+	case kPtr:
+		vFindCycles(s.Elem, name, ext(vStep{kind: 'p'}), stack, stackAt, canReach, out)
+	case kStruct:
+		for _, f := range s.Fld {
+			vFindCycles(f.S, name+"."+f.Name, ext(vStep{kind: 'f', s: s, f: f}), stack, stackAt, canReach, out)
+		}
+	case kRef:
+		if s.Ref.Special != "" || !canReach[s.Ref] {
+			return
+		}
+		for i, n := range stack {
+			if n == s.Ref {
+				*out = append(*out, vCycle{name: name + ">" + s.Ref.Name, prefix: path[:stackAt[i]], turn: append([]vStep(nil), path[stackAt[i]:]...),
+					leaf: vValidEnc(s, 0)})
+				return
+			}
+		}
+		vFindCycles(s.Ref.Body, name+">"+s.Ref.Name, ext(vStep{kind: 'r', n: s.Ref}),
+			append(append([]*vNamed(nil), stack...), s.Ref), append(append([]int(nil), stackAt...), len(path)+1), canReach, out)
+	}
+}
+
+// the cycle unrolled d times; bit k of forms = struct level k of one turn is written as an array
+func (c vCycle) nest(d int, forms int) []byte {
+	var structIdx []int
+	for i, st := range c.turn {
+		if st.kind == 'f' {
+			structIdx = append(structIdx, i)
+		}
+	}
+	arr := map[int]bool{}
+	for k, i := range structIdx {
+		if forms&(1<<uint(k)) != 0 {
+			arr[i] = true
+		}
+	}
+	cur := c.leaf
+	for l := 0; l < d; l++ {
+		for i := len(c.turn) - 1; i >= 0; i-- {
+			cur = c.turn[i].wrap(arr[i], cur)
+		}
+	}
+	for i := len(c.prefix) - 1; i >= 0; i-- {
+		cur = c.prefix[i].wrap(false, cur)
+	}
+	return cur
+}
+
+func (c vCycle) structLevels() int {
+	k := 0
+	for _, st := range c.turn {
+		if st.kind == 'f' {
+			k++
+		}
+	}
+	return k
+}
+
 func TestVerifC41(t *testing.T) {
-	_, roots, tmpls := vHarnessWalker(t)
+	walker, roots, tmpls := vHarnessWalker(t)
 	r := vNewRand(0xC41)
 	rand.Seed(int64(r.U64() >> 1))
 	bases := vEnvInt("VERIF_C41_BASES", 2)
@@ -2240,7 +2466,7 @@ func TestVerifC41(t *testing.T) {
 	outcomes := map[string]int{}
 	lax := &vLax{r: r, uses: map[string]int{}}
 	total := 0
-	var siteStats map[string]interface{}
+	var siteStats, nestStats map[string]interface{}
 	unsafeRoot := map[*vNamed]int{}
 	for i, n := range roots {
 		if vHasUnbounded(n.Body, map[*vNamed]bool{n: true}) {
@@ -2420,6 +2646,40 @@ func TestVerifC41(t *testing.T) {
 			}
 		}
 	}
+	// recursion points of the schemas, unrolled in every map / positional form combination
+	{
+		canReach := vRecursionInfo(walker.order)
+		nCycles, nCases := 0, 0
+		var cycNames []string
+		for i, n := range roots {
+			if !canReach[n] {
+				continue
+			}
+			emit := emitFor(n, tmpls[i])
+			var cycles []vCycle
+			vFindCycles(n.Body, n.Name, nil, []*vNamed{n}, []int{0}, canReach, &cycles)
+			for _, c := range cycles {
+				nCycles++
+				cycNames = append(cycNames, c.name)
+				depths := []int{1, 2, 5, 60, 120, 124, 125, 126, 127, 128, 129, 130, 140, 300}
+				switch n.Name {
+				case "transactions.SignedTxnWithAD", "transactions.SignedTxnInBlock", "transactions.EvalDelta":
+					depths = append(depths, 5000)
+				}
+				for forms := 0; forms < 1<<uint(c.structLevels()); forms++ {
+					for _, d := range depths {
+						kind := "nest-map-form"
+						if forms != 0 {
+							kind = "nest-positional-form"
+						}
+						emit(kind, c.nest(d, forms))
+						nCases++
+					}
+				}
+			}
+		}
+		nestStats = map[string]interface{}{"cycles": nCycles, "cases": nCases, "paths": cycNames}
+	}
 	// a struct map key given twice: the second map is merged into the first (go-codec compatible
 	// behaviour of the generated code); bookkeeping.BlockHeader.StateProofTracking has allocbound 1
 	for i, n := range roots {
@@ -2462,7 +2722,7 @@ func TestVerifC41(t *testing.T) {
 		unsafeNames = append(unsafeNames, n.Name)
 	}
 	sort.Strings(unsafeNames)
-	st := map[string]interface{}{"kinds": kinds, "outcomes": outcomes, "total": total, "lax_choices": lax.uses, "allocbound_sites": siteStats,
+	st := map[string]interface{}{"kinds": kinds, "outcomes": outcomes, "total": total, "lax_choices": lax.uses, "allocbound_sites": siteStats, "recursion_nesting": nestStats,
 		"roots_decoded_in_child_process": unsafeNames}
 	vStats(st)
 	if outcomes["panic"] > 0 {
